@@ -132,6 +132,32 @@ def _replay(sub, groups):
             h.close()
 
 
+def _falsified(rows):
+    """Binding self-test rows: a wrong revno, a silently moved tip on divergence, an append-only tip replaced."""
+    import copy
+    out = []
+    for r in rows:
+        for k, (op, o) in enumerate(zip(r["ops"], r["out"])):
+            if len(out) == 0 and o[2] == "":
+                x = copy.deepcopy(r)
+                x["out"][k][1] += 1
+                x["out"][k][4] += 1
+                out.append(("revno", x))
+            elif len(out) == 1 and op[0] == "pull" and not op[1] and o[2] == "DivergedBranches":
+                x = copy.deepcopy(r)
+                x["out"][k][0] = x["out"][k][3] = op[3] or r["c"]["s"]
+                x["out"][k][1] = x["out"][k][4] = len(hc.lefthand(r["c"]["par"], x["out"][k][0]))
+                out.append(("tip", x))
+            elif len(out) == 2 and op[0] == "setlast" and op[2] and o[2] == "AppendRevisionsOnlyViolation":
+                x = copy.deepcopy(r)
+                x["out"][k][0] = x["out"][k][3] = r["c"]["s"]
+                x["out"][k][1] = x["out"][k][4] = len(hc.lefthand(r["c"]["par"], r["c"]["s"]))
+                out.append(("appendonly", x))
+        if len(out) == 3:
+            break
+    return out
+
+
 def run(ctx):
     env.init()
     hc.preload()
@@ -163,7 +189,7 @@ def run(ctx):
             ctx.sample({"graph": r["c"]["par"], "t": r["c"]["t"], "s": r["c"]["s"], "kind": r["kind"],
                         "operations -> [tip, revno, exc, live tip, live revno, master tip, master revno, new parents]":
                             [[o, x] for o, x in zip(r["ops"], r["out"])][:6]}, limit=2)
-    for row, v in hc.judge_parallel(ctx, "HistoryC21Trace", rows):
+    for row, v in hc.judge_with_selftest(ctx, "HistoryC21Trace", rows, _falsified(rows)):
         c = row["c"]
         for k, law in v["failed"]:
             op, out = row["ops"][k - 1], row["out"][k - 1]
